@@ -217,6 +217,10 @@ func runBubble(t *testing.T, f func()) (leftover bool, pv any, stack string) {
 
 // exec executes one run on the given tape and attributes race reports to it.
 func (w *worker) exec(tape *Tape, keepLog bool) *RunCtx {
+	select {
+	case w.wdReset <- "":
+	default:
+	}
 	rc := &RunCtx{T: w.t, Tape: tape, Stats: w.stats, Tier: w.tier, KeepLog: keepLog}
 	if w.c.Bubble {
 		_, pv, stack := runBubble(w.t, func() { w.c.Run(rc) })
@@ -449,7 +453,7 @@ func WorkerMain(t *testing.T, c *Check) {
 		w.progress = f
 		defer f.Close()
 	}
-	go w.watchdog(time.Duration(envInt("VERIF_WATCHDOG_S", 60)) * time.Second)
+	go w.watchdog(time.Duration(envInt("VERIF_WATCHDOG_S", 20)) * time.Second)
 
 	res := &workerResult{
 		Property:    c.ID,
@@ -507,7 +511,9 @@ func (w *worker) watchdog(limit time.Duration) {
 	for {
 		select {
 		case s := <-w.wdReset:
-			last = s
+			if s != "" {
+				last = s
+			}
 			if !timer.Stop() {
 				select {
 				case <-timer.C:
@@ -601,9 +607,14 @@ func (w *worker) explore(res *workerResult) {
 			rc2 := w.exec(ReplayTape(rc.Tape.Out), false)
 			res.Rechecked++
 			if rc2.HarnessErr != "" || rc2.Violation != nil || rc2.LogHash != rc.LogHash {
+				// Run both again with logs for the report.
+				a := w.exec(ReplayTape(rc.Tape.Out), true)
+				b := w.exec(ReplayTape(rc.Tape.Out), true)
+				c := w.exec(NewTape(Mix(seed, uint64(i))), true)
 				res.HarnessErr = fmt.Sprintf(
-					"determinism recheck failed at seed=%d run=%d: hash %x vs %x, violation %v, err %q",
+					"determinism recheck failed at seed=%d run=%d: hash %x vs %x, violation %v, err %q\n%s\n%s",
 					seed, i, rc.LogHash, rc2.LogHash, rc2.Violation, rc2.HarnessErr,
+					firstDivergence("explore", c.Log, "replay", a.Log), firstDivergence("replay1", a.Log, "replay2", b.Log),
 				)
 
 				return
@@ -724,4 +735,21 @@ func (w *worker) replay(res *workerResult) {
 	}
 	res.Violation = rc.Violation
 	res.Samples = []any{map[string]any{"events": capLines(rc.Log, 400)}}
+}
+
+func firstDivergence(an string, a []string, bn string, b []string) string {
+	n := min(len(a), len(b))
+	for i := 0; i < n; i++ {
+		if a[i] != b[i] {
+			lo := max(0, i-12)
+
+			return fmt.Sprintf("%s vs %s diverge at event %d:\n  common: %s\n  %s: %s\n  %s: %s", an, bn, i,
+				strings.Join(a[lo:i], " | "), an, strings.Join(a[i:min(len(a), i+4)], " | "), bn, strings.Join(b[i:min(len(b), i+4)], " | "))
+		}
+	}
+	if len(a) != len(b) {
+		return fmt.Sprintf("%s has %d events, %s has %d; common prefix identical; tails: %v / %v", an, len(a), bn, len(b), a[n:], b[n:])
+	}
+
+	return an + " and " + bn + " logs identical"
 }
